@@ -237,3 +237,40 @@ func H_C12_remove2() {
 	vHNSWReachable(idx)
 	vHNSWSearchChecks(idx, m, n, []int{1, 4})
 }
+
+func init() {
+	vHarnesses["H_C12_levels_remove"] = H_C12_levels_remove
+}
+
+// symbolic level draws combined with removals: the entry point / the only
+// upper-layer vertices may be removed; flush; a later add near anything
+func H_C12_levels_remove() {
+	idx, err := NewHNSWIndex(1, L2Squared, vHM, 8, 8)
+	vAssert(err == nil, "constructor")
+	m := vNewRef(L2Squared)
+	n := 3
+	for i := 0; i < n; i++ {
+		vHNSWAdd(idx, m, vIDs[i], vVec(vName("v", i), 1), 1)
+	}
+	nrem := 1 + vChoose("removals", 2)
+	t1 := vChoose("target1", n)
+	vRemoveBoth(idx, m, vIDs[t1])
+	if nrem == 2 {
+		t2 := vChoose("target2", n-1)
+		if t2 >= t1 {
+			t2++
+		}
+		vRemoveBoth(idx, m, vIDs[t2])
+	}
+	resident := n
+	if vChoose("flush", 2) == 1 {
+		vFlushBoth(idx, m)
+		resident = n - nrem
+	}
+	if vChoose("add_after", 2) == 1 {
+		vHNSWAdd(idx, m, vIDs[n], vVec(vName("v", n), 1), 1)
+		resident++
+	}
+	vHNSWReachable(idx)
+	vHNSWSearchChecks(idx, m, resident, []int{1, 4})
+}
